@@ -2,6 +2,6 @@ SPECIFICATION Spec
 CONSTANT Depth = 3
 CONSTANT DcShift = "4294966295"
 CONSTANT Hook = FALSE
-CONSTANT Side = "client"
+CONSTANT Side = "listener"
 INVARIANT Emit
 CHECK_DEADLOCK FALSE
